@@ -33,9 +33,17 @@ static std::string excname(const std::exception& e) {
   return std::string("other:") + e.what();
 }
 
+// `hex 1`: every number is printed as the 16 hex digits of its binary64 bit pattern (C02/C13 binary64 tie: results are
+// compared bit for bit, signed zeros and infinities included); `hex 0` (default): integers / %.17g
+static bool hex_mode = false;
 static std::string num(double x) {
   char b[64];
   if (std::isnan(x)) return "nan";    // the sign of a NaN carries no meaning
+  if (hex_mode) {
+    unsigned long long u; std::memcpy(&u, &x, sizeof u);
+    snprintf(b, sizeof b, "%016llx", u);
+    return b;
+  }
   if (x == std::floor(x) && std::fabs(x) < 9.0e15) snprintf(b, sizeof b, "%lld", (long long)x);
   else snprintf(b, sizeof b, "%.17g", x);
   return b;
@@ -115,7 +123,8 @@ int main() {
     std::vector<std::string>& w = t.w;
     try {
       if (w[0] == "cfg") {
-        cleanup(); st = new SpyStack();
+        std::cout.flush();   // a new case starts: whatever stops the driver later, the output of the earlier cases is complete
+        cleanup(); st = new SpyStack(); hex_mode = false;
 #ifdef RJHOGAN_ADEPT_2_VERIF
         verif::EventLog::install(); verif::EventLog::buf().clear();
 #endif
@@ -262,7 +271,8 @@ int main() {
         for (int i = 0; i < 256; ++i) { if (adept::verif_omp_blocks_[i]) std::cout << " " << i << ":" << adept::verif_omp_blocks_[i]; adept::verif_omp_blocks_[i] = 0; }
 #endif
         std::cout << "\n";
-      } else if (w[0] == "ev") {
+      } else if (w[0] == "hex" && w.size() == 2) { hex_mode = w[1] != "0"; std::cout << "ok\n"; }
+      else if (w[0] == "ev") {
 #ifdef RJHOGAN_ADEPT_2_VERIF
         std::cout << verif::EventLog::take(*st) << "\n";
 #else
